@@ -40,7 +40,7 @@ W       == CHOOSE w \in Workers : TRUE
 
 Header(h) == [name |-> h.name, stages |-> ToSetS(h.stages), tasks |-> ToSetS(h.tasks), taskSeq |-> h.tasks,
               stageOf |-> [t \in ToSetS(h.tasks) |-> h.stageOf[t]], cof |-> ToSetS(h.cof),
-              nofailp |-> ToSetS(h.nofailp), top |-> ToSetS(h.top)]
+              nofailp |-> ToSetS(h.nofailp), top |-> ToSetS(h.top), audit |-> ToSetS(h.audit)]
 
 XStatus(x) == [e \in Ents |-> IF e = "wf" THEN x.wf ELSE IF e \in Stages THEN x.st[e] ELSE x.tk[e]]
 EvRec(r)   == [seq |-> r.seq, typ |-> r.typ, ent |-> r.ent, st |-> r.st]
@@ -72,13 +72,15 @@ TCommit ==
      \/ \E e0 \in OwnEvent(W) : RecordOwn(W, e0)
      \/ CompleteTaskCommit(W) \/ CompleteStageCommit(W) \/ CompleteStageErrorCommit(W)
      \/ SkipStageCommit(W) \/ CompleteWorkflowCommit(W)
+     \/ AuditRecord(W)
   /\ act'.mark = Ev.mark
   /\ LoggedP(Ev)
 TAppend ==
   /\ IsEvent("append")
   /\ IF Ev.intx THEN \E e0 \in InTxnEvents(W) : SameEvent(e0, Ev.ev) /\ AppendInTxn(W, e0)
-     ELSE /\ ~tx[W].open /\ pend[W] = <<>>
-          /\ \E e0 \in OwnEvent(W) : SameEvent(e0, Ev.ev)
+     ELSE /\ ~tx[W].open
+          /\ \/ pend[W] = <<>> /\ \E e0 \in OwnEvent(W) : SameEvent(e0, Ev.ev)
+             \/ pend[W] # <<>> /\ pend[W][1].seq = 0 /\ SameEvent(pend[W][1], Ev.ev)     \* the reacting subscriber
           /\ Stay
 TPub      == IsEvent("pub") /\ pend[W] # <<>> /\ pend[W][1] = EvRec(Ev.ev) /\ Publish(W)
 TRollback == IsEvent("rollback") /\ Rollback(W) /\ LoggedSame(Ev)
